@@ -24,12 +24,55 @@ def corpus():
     return _corpus
 
 
+_harvested = {}
+
+
+def _harvest(name):
+    """Fallback for a module the committed corpus does not know (added to the library later): harvest candidate
+    literals from its docstring and doctest file, exactly as vf/harvest.py did for the corpus."""
+    if name not in _harvested:
+        import re
+        m = core.number_modules().get(name)
+        valid, invalid = [], []
+        if m is not None:
+            texts = []
+            try:
+                texts.append(open(m.__file__, encoding='utf-8').read())
+            except OSError:
+                pass
+            t = os.path.join(core.REPO, 'tests', 'test_' + name.replace('.', '_').replace('in__', 'in_').replace('is__', 'is_') + '.doctest')
+            if os.path.exists(t):
+                texts.append(open(t, encoding='utf-8').read())
+            cands = set()
+            for text in texts:
+                cands.update(re.findall(r"'([^'\n]{2,80})'", text))
+                cands.update(re.findall(r'"([^"\n]{2,80})"', text))
+                for line in text.splitlines():
+                    x = line.strip()
+                    if x.startswith('...'):
+                        x = x[3:].strip()
+                    if 2 <= len(x) <= 80 and not x.startswith('>>>'):
+                        cands.add(x)
+            for c in sorted(cands):
+                o = core.out(m.validate, c)
+                if o[0] == 'ok':
+                    valid.append(c)
+                elif re.search(r'[0-9]', c) and len(c) <= 50 and not re.search(r'[=(){}\[\]]|>>>|import', c):
+                    invalid.append(c)
+        _harvested[name] = {'valid': valid, 'invalid': invalid[:60]}
+    return _harvested[name]
+
+
 def seeds(name):
-    return corpus().get(name, {}).get('valid', [])
+    if name not in corpus():
+        return _harvest(name)['valid']
+    return corpus()[name].get('valid', [])
 
 
 def near_misses(name):
-    return corpus().get(name, {}).get('invalid', [])
+    if name not in corpus():
+        return _harvest(name)['invalid']
+    return corpus()[name].get('invalid', [])
 
 
 _pool_cache = {}
@@ -214,7 +257,9 @@ def valid_numbers(name, raw_fraction=4, **opts):
     """Strategy: canonical valid numbers of `name` (corpus + synthesised)."""
     p = pool(name, **opts)
     if not p:
-        raise core.HarnessError('no valid seed for %s on this tree' % name)
+        if name in corpus():
+            raise core.HarnessError('none of the %d corpus numbers of %s is accepted by this tree' % (len(seeds(name)), name))
+        raise core.NoSeeds('no valid example found for new module %s' % name)
     m = core.number_modules()[name]
     extra = extra_valid(name) if not opts else None
 
